@@ -1,3 +1,5 @@
+import datetime
+
 import openpyxl
 
 from . import patch, xltypes
@@ -18,6 +20,22 @@ class Reader():
             for name, defn in self.book.defined_names.items()
             if defn.hidden is None and defn.value != '#REF!'
         }
+
+    @staticmethod
+    def _day_fraction(value):
+        """A time of day or a duration is a number of days for Excel.
+
+        (openpyxl turns a time-formatted number below 1 into a
+        `datetime.time` and a duration into a `datetime.timedelta`, neither
+        of which the evaluator knows.)
+        """
+        if isinstance(value, datetime.time):
+            value = datetime.timedelta(
+                hours=value.hour, minutes=value.minute, seconds=value.second,
+                microseconds=value.microsecond)
+        if isinstance(value, datetime.timedelta):
+            return value / datetime.timedelta(days=1)
+        return value
 
     def read_cells(self, ignore_sheets=[], ignore_hidden=False):
         cells = {}
@@ -46,6 +64,6 @@ class Reader():
                     value = cell.value
 
                 cells[addr] = xltypes.XLCell(
-                    addr, value=value, formula=formula)
+                    addr, value=self._day_fraction(value), formula=formula)
 
         return [cells, formulae, ranges]
